@@ -83,7 +83,7 @@ class AUX01(MetadataSchema):
 STAGE0 = ("vf-base", "1.0.0", [AA10, AA20, DD01, AUX01])
 STAGE1 = ("vf-ext", "0.3.1", [AA12, BB10, CC02])
 CLASSES = {"AA10": AA10, "AA12": AA12, "AA20": AA20, "BB10": BB10, "CC02": CC02, "DD01": DD01, "AUX01": AUX01}
-NAMES = ["vf.aa", "vf.bb", "vf.cc", "vf.dd", "vf.aux"]
+NAMES = ["vf.aa", "vf.bb", "vf.cc", "vf.dd", "vf.aux", "core.file"]
 
 
 def instances(cls_key: str, rng: random.Random) -> Dict[str, Any]:
